@@ -7,8 +7,15 @@
   (null everywhere, integers integral and within the kind's range, arrays of any length, objects with known
   keys only — exact or case-insensitive match); `EncJson.PlainInts j`: every integer-valued number of `j`
   lies within int64 (the schema states no bound for int / int64 and no maximum for uint / uint64 / uintptr).
+
+  With embedded struct fields (last section; helper lemmas: JSV/Proofs/InfEmbTight.lean): `Go.forTypeE` is the model
+  of `ForType` (JSV/Model/InferEmb.lean), `EncJsonEmb.decodableE` the decoder with DisallowUnknownFields over
+  encoding/json's `typeFields` (JSV/Spec/EncJsonEmb.lean).
 -/
 import JSV.Proofs.InfTight
+import JSV.Proofs.InfEmbTight
+import JSV.Props.C04
+import JSV.Props.C16
 namespace JSV.C09
 open JSV Go EncJson Spec
 
@@ -182,5 +189,80 @@ example : (match forType {} 3 (.map "String" (.ptr (.basic "Uint8"))) #[] with
 example : decodable (.map "String" (.ptr (.basic "Uint8"))) (.obj [("a", .num 255), ("b", .null)]) = true := by decide
 example : decodable (.map "String" (.ptr (.basic "Uint8"))) (.obj [("a", .num 256)]) = false := by decide
 example : PlainInts (.obj [("a", .num 255), ("b", .null)]) = true := by decide
+
+/-! ## embedded struct fields (`forTypeE`; the strict decoder: `EncJsonEmb.decodableE`) -/
+
+open EncJsonEmb in
+/-- **main, with embedded fields (partial)**: for a type of the domain `InDomainE` — `InDomain` plus embedded fields
+    that are untagged exported declared struct types, by value or by pointer, such that within every tree of embedded
+    structs the JSON name of a field is determined by its Go name and vice versa and no Go name occurs twice at one
+    depth (`namesOk`) — a document that the schema returned by `ForType` accepts is one that json.Decoder with
+    DisallowUnknownFields accepts for the type: its keys are JSON names of `typeFields` (the promoted fields included)
+    and every member decodes into the dominant field of that name.
+
+    `hno` (`EmbNotInTable`): no embedded field, at any level of `T`, is of a type with a TypeSchemas entry (as in
+    `C04.infer_soundE_partial`; with an override the properties of the override replace the promoted ones, and the
+    decoder knows nothing of them).
+
+    Partial, what is missing: types outside `InDomainE`: D14 (a JSON name shared by two Go names), D16 (tagged /
+    non-struct / unexported embedded fields), named types in non-embedded positions (as in `infer_tight`). -/
+theorem infer_tightE_partial (opts : IOpts) (fuel : Nat) (T : GoTypeE) (st : Store) (id : NodeId) (st' : Store)
+    (re : String → String → Bool) (hno : EmbNotInTable opts T) (hdom : InDomainE T = true)
+    (h : forTypeE opts fuel T st = .ok (some id, st')) (j : Json) (hp : PlainInts j = true)
+    (fuel' : Nat) (hv : Spec.valid (specEnvNoRefs st' re) fuel' id j = some true) :
+    decodableE T j = true := by
+  obtain ⟨id', hid, hm⟩ := inferFuelE_models opts fuel T [] st (some id) st' hdom hno h
+  cases hid
+  exact tightE (re := re) (wt T) T (Nat.le_refl _) hdom false id hm fuel' [] j hp (valid_iff_isSome.2 hv)
+
+open EncJsonEmb in
+/-- contrapositive: what does not decode is not accepted (same domain, partial in the same sense) -/
+theorem not_decodable_rejectedE_partial (opts : IOpts) (fuel : Nat) (T : GoTypeE) (st : Store) (id : NodeId) (st' : Store)
+    (re : String → String → Bool) (hno : EmbNotInTable opts T) (hdom : InDomainE T = true)
+    (h : forTypeE opts fuel T st = .ok (some id, st')) (j : Json) (hp : PlainInts j = true)
+    (hnd : decodableE T j = false) (fuel' : Nat) :
+    Spec.valid (specEnvNoRefs st' re) fuel' id j ≠ some true := by
+  intro hv
+  rw [infer_tightE_partial opts fuel T st id st' re hno hdom h j hp fuel' hv] at hnd
+  cases hnd
+
+open EncJsonEmb in
+/-- (1) an object that lacks an always-written field of `typeFields` — a promoted one included — is rejected (the
+    decoder would accept: this one is the schema's own).  Same domain as `infer_tightE_partial`. -/
+theorem missing_required_rejectedE (opts : IOpts) (fuel : Nat) (fields : List (FieldE GoTypeE)) (st : Store)
+    (id : NodeId) (st' : Store) (re : String → String → Bool) (hno : EmbNotInTable opts (.struct fields))
+    (hdom : InDomainE (.struct fields) = true)
+    (h : forTypeE opts fuel (.struct fields) st = .ok (some id, st'))
+    (kvs : List (String × Json)) (k : String) (hk : k ∈ alwaysFieldNames fields) (hmiss : Json.lookup k kvs = none)
+    (fuel' : Nat) :
+    Spec.valid (specEnvNoRefs st' re) fuel' id (.obj kvs) ≠ some true := by
+  intro hv
+  obtain ⟨id', hid, hm⟩ := inferFuelE_models opts fuel _ [] st (some id) st' hdom hno h
+  cases hid
+  have := requiredE (re := re) hdom hm (valid_iff_isSome.2 hv) k hk
+  rw [hmiss] at this
+  cases this
+
+open EncJsonEmb in
+/-- (2) an undeclared property is rejected: a key that is the JSON name of no dominant field of the tree of embedded
+    structs, exactly or case-insensitively.  Same domain as `infer_tightE_partial`. -/
+theorem undeclared_property_rejectedE (opts : IOpts) (fuel : Nat) (fields : List (FieldE GoTypeE)) (st : Store)
+    (id : NodeId) (st' : Store) (re : String → String → Bool) (hno : EmbNotInTable opts (.struct fields))
+    (hdom : InDomainE (.struct fields) = true)
+    (h : forTypeE opts fuel (.struct fields) st = .ok (some id, st'))
+    (kvs : List (String × Json)) (hp : PlainInts (.obj kvs) = true) (k : String) (v : Json) (hkv : (k, v) ∈ kvs)
+    (hexact : decodableFindE (candidates [] 0 fields) (fun n k => n == k) [] 0 fields k v = none)
+    (hfold : decodableFindE (candidates [] 0 fields) foldEq [] 0 fields k v = none) (fuel' : Nat) :
+    Spec.valid (specEnvNoRefs st' re) fuel' id (.obj kvs) ≠ some true := by
+  refine not_decodable_rejectedE_partial opts fuel _ st id st' re hno hdom h _ hp ?_ fuel'
+  simp only [decodableE]
+  cases hall : kvs.all fun p =>
+      match decodableFindE (candidates [] 0 fields) (fun n k => n == k) [] 0 fields p.1 p.2 with
+      | some b => b
+      | none => (decodableFindE (candidates [] 0 fields) foldEq [] 0 fields p.1 p.2).getD false with
+  | false => rfl
+  | true =>
+    have := List.all_eq_true.1 hall (k, v) hkv
+    simp [hexact, hfold] at this
 
 end JSV.C09
